@@ -278,7 +278,8 @@ def pyjelly_pairs(ctx, rng):
     for pad in list(range(0, 20)) + [100, 110, 115, 120, 125, 130, 140, 300]:
         cfg = {"integration": "generic", "physical": 1, "entry": "stream_frames_gen", "frame_size": 250,
                "preset": (rng.choice([8, 16, 128]), rng.choice([0, 8]), rng.choice([0, 8])), "logical": 1,
-               "generalized": True, "rdf_star": True, "stream_name": "é" * (pad // 2) + "x" * (pad % 2)}
+               "generalized": True, "rdf_star": True, "stream_name": "é" * (pad // 2) + "x" * (pad % 2),
+               "params_build": ["direct", "positional", "replace"][pad % 3]}
         need_dt = any(t[0] == "lit" and t[3] for s in stmts for top in s for t in T.iter_terms(top))
         if need_dt:
             cfg["preset"] = (cfg["preset"][0], cfg["preset"][1], 8)
@@ -440,7 +441,8 @@ def rdflib_writer_modes(ctx, rng):
         res = {}
         for delimited in (True, False):
             cfg = {"integration": "rdflib", "physical": 1, "entry": entry, "frame_size": 250, "preset": (16, 8, 8), "logical": 1,
-                   "generalized": False, "rdf_star": False, "delimited": delimited, "stream_name": ""}
+                   "generalized": False, "rdf_star": False, "delimited": delimited, "stream_name": "",
+                   "params_build": "positional" if len(stmts) % 2 else "direct"}
             try:
                 if flow_kind and flow_kind.startswith("via:"):
                     pj.OPTIONS_OVERRIDE = transports[flow_kind[4:]](pj.make_options(cfg))
